@@ -431,7 +431,7 @@ def spellings():
         out.append(f"{net.network_address}/{net.netmask}")
         out.append(f"{net.network_address}/{net.hostmask}")
     for txt in ("1234:5678:0000:AB00:0:0:0:0/56", "FE80::/10", "fe80:0000:0000:0000:0000:0000:0000:0000/64", "fe80::1", "0:0:0:0:0:0:0:0/0", "::ffff:10.0.0.0/104",
-                "2001:DB8:0:0:1::/80", "2001:db8::0:1:0:0/96"):
+                "2001:DB8:0:0:1::/80", "2001:db8::0:1:0:0/96", "2001:0DB8:0000:0000:0000:0000:0000:0000/32", "ABCD:EF01::/32", "::FFFF:0:0/96", "0000::/8"):
         out.append(txt)
     return out
 
@@ -453,7 +453,11 @@ def check_spelling(res, txt):
         pats, npats = impl_expand(txt), impl_expand(norm)
     except SigmaError as e:
         res["outcomes"].add(h64("rejected"))
-        return  # rejecting an unusual spelling is permitted; accepting it with other content is not
+        # rejecting a spelling that is not address/prefix-length notation (netmask, host mask, bare address) is permitted; an IPv6
+        # network in address/prefix-length notation with upper-case digits, leading zeros or uncompressed groups is a valid value
+        if net.version == 6 and re.fullmatch(r"[0-9A-Fa-f:.]+/\d+", txt):
+            add_violation(res, "spelling:valid-address/prefix-notation-rejected", case, "query", repr(e)[:200])
+        return
     except Exception as e:
         add_violation(res, "spelling:non-sigma-exception:" + type(e).__name__, case, "query or SigmaError", repr(e))
         return
